@@ -75,6 +75,8 @@ func init() {
 		for _, k := range []string{k0, k1, kx} {
 			add(C("SETNX", k, "a"), C("SETNX", k, "10"))
 		}
+		// relative expiries far beyond 2^63 nanoseconds (317 years): valid, the key stays
+		add(C("SET", k0, "a", "EX", "10000000000"), C("SETEX", k0, "10000000000", "a"), C("SET", k0, "a", "PX", "10000000000000000"))
 		add(C("SETNX", k0), C("SETEX", k0, "100", "a"), C("SETEX", kx, "100", "10"), C("SETEX", k0, "0", "a"),
 			C("SETEX", k0, "-1", "a"), C("SETEX", k0, "abc", "a"), C("SETEX", k0, "100"))
 		for _, k := range []string{k0, k1, kx} {
